@@ -172,6 +172,15 @@ def build_args(st, method):
         a['retry'] = st.fresh_sv('retry', 'bool')
     elif method in ('delete',):
         a['retry'] = st.fresh_sv('retry', 'bool')
+    elif method == 'push':
+        del a['key']
+        a['value'] = sym_value(st)
+        a['prefix'] = None
+        a['side'] = 'back'
+        a['expire'] = Opt(st.fresh('expire_none', _B), st.fresh_sv('expire', 'real'))
+        a['read'] = False
+        a['tag'] = cc.DbCell(st.fresh('tag', DbVal))
+        a['retry'] = st.fresh_sv('retry', 'bool')
     return a
 
 
